@@ -44,6 +44,19 @@ structure initialStatus where
   LocalCert : Option CertHdr := none
   deriving Repr, DecidableEq
 
+/-- the fields of the node's own certificate record (`types.CertificateHeader`) that decide where the next certificate starts -/
+structure SentHdr where
+  ToBlock : Nat := 0
+  FromBlock : Nat := 0
+  Status : Nat := 0
+  RetryCount : Nat := 0
+  deriving Repr, DecidableEq
+
+/-- `baseFlow` as far as `getLastSentBlockAndRetryCount` reads it: `StartL2Block()` is `cfg.StartL2Block` -/
+structure baseFlow where
+  StartL2Block : Nat := 0
+  deriving Repr, DecidableEq
+
 /-- what `process` returns: `(&initialStatusResult{action, cert}, nil)` or `(nil, err)` -/
 inductive Ret where
   | result (action : Nat) (cert : Option CertHdr)
